@@ -1,13 +1,25 @@
 /-
-  C15 / C16 on the REGENERATED source, first part: `tinyjambu_prng_feed(state, data, size)` of src/tinyjambu-prng.c — two calls of the regenerated
-  `tinyjambu_hash_df` (six header stores into a local, the marker branch, `hash_init` / three `hash_update`s (the last one possibly with a NULL pointer and
-  length 0) / `hash_finalize` / `hash_free`) and the saturating increment of `reseed_counter`, all as translated by tools/c2lean.py — leaves the state
-  object representing the model's `Prng.feed`: `V ← Hash_df(0x01 ‖ V ‖ data)` (the OLD state together with the new material, C15), `C ← Hash_df(0x00 ‖ V)`,
-  `reseed_counter` one step closer to the limit and never wrapping (C16), while `reseed_limit`, the callback and the user-data pointer keep their values
-  and their PUBLIC labels (a later `generate` may branch on them), for every state, every data string (anywhere, any defined labels, or NULL with length 0).
+  C15 / C16 on the REGENERATED source: the Hash_DRBG of src/tinyjambu-prng.c as translated by tools/c2lean.py, with a user entropy callback installed
+  (`userCb` of the MiniC semantics: one scripted delivery per call, bytes labelled secret).
+
+  * `feed_source_is_model`      tinyjambu_prng_feed = `Prng.feed`: `V ← Hash_df(0x01 ‖ V ‖ data)` (the OLD state together with the new material),
+                                `C ← Hash_df(0x00 ‖ V)`, the counter one step closer to the limit and saturating (C16), any data incl. NULL/0.
+  * `set_limit_source_is_model` tinyjambu_prng_set_reseed_limit = `Prng.setLimit` (clamp at 1 MiB, round up to blocks, at least 1): only the 4 bytes change.
+  * `free_source_is_model`      tinyjambu_prng_free leaves 96 public zero bytes.
+  * `reseed_source_is_model`    tinyjambu_prng_reseed = `Prng.reseed`: `C ← V`, one delivery over it, `V ← Hash_df(0x01 ‖ V ‖ C)`, `C ← Hash_df(0x00 ‖ V)`,
+                                counter 1; the result is 1 exactly when the callback reported 32 bytes.
+  * `generate_source_is_model`  tinyjambu_prng_generate = `Prng.genLoop` for EVERY size: per block the automatic reseed when counter > limit (the check
+                                is made before every block), `Hash(V)`, `memcpy` of `min(32, size)` bytes, `V ← V + Hash(0x03 ‖ V) + C + counter`
+                                (the 32-round carry loop = `vAdvance`), counter + 1, and the final wipe of the local `H`; the entropy script loses
+                                exactly the deliveries the reseeds consumed.  Induction over the size; the callees (`tinyjambu_hash`,
+                                `tinyjambu_hash_prefixed`, `tinyjambu_hash_df`, `tinyjambu_prng_reseed`, the regenerated hash functions and
+                                `tinyjambu_permutation_256`) are the regenerated terms too.
+  In all of them `reseed_counter`, `reseed_limit`, the callback and the user-data pointer keep PUBLIC labels (the functions branch on them), every block
+  other than the state object and `data` keeps its values with labels that do not rise (`KeepW`).
+  Not covered here: `tinyjambu_prng_init` / `_init_user` and the system entropy shim (C17, C18 stay on the hand model + correspondence).
 -/
-import TJ.Proofs.PrngFeed
-import TJ.Impl.Prng
+import TJ.Proofs.PrngGenCall
+import TJ.Props.C15
 namespace TJ.Props.C15Gen
 open TJ TJ.MiniC TJ.MiniC.Hoare TJ.Gen.MiniC
 
@@ -52,5 +64,167 @@ theorem feed_counter_monotone (p : Prng) (data : Bytes) : p.rc.toNat ≤ (p.feed
     have h1 : p.rc.toNat < 4294967295 := by rw [UInt32.lt_iff_toNat_lt] at hlt; simpa using hlt
     simp; omega
   · simp only [hlt, if_false]; exact Nat.le_refl _
+
+/-- the hand model's state and scripted user callback as the source-level generator state -/
+def toGS (p : Prng) (e : Ent) : GS := ⟨p.V, p.C, p.rc.toNat, p.rl.toNat, e.user.map fun d => (d.written, d.ret)⟩
+
+def Small (e : Ent) : Prop := ∀ d ∈ e.user, d.written.length ≤ 32
+
+theorem seedOf_writeAt (w : Bytes) (ret : Nat) (V : Bytes) (hw : w.length ≤ 32) (hV : V.length = 32) : seedOf (w, ret) V = writeAt V 0 w := by
+  unfold seedOf writeAt
+  simp only [Nat.min_eq_left hw, List.take_zero, List.nil_append, Nat.zero_add]
+  rw [List.take_of_length_le (Nat.le_refl _)]
+
+theorem toUInt32_toNat (x : UInt32) : x.toNat.toUInt32 = x := by
+  apply UInt32.toNat_inj.mp; simp [Nat.toUInt32]
+
+theorem reseed_link (p : Prng) (e : Ent) (hcb : p.cb = .user) (hs : Small e) (hV : p.V.length = 32) :
+    ∃ ret p' e', p.reseed e = some (ret, p', e') ∧ toGS p' e' = (toGS p e).reseed ∧ p'.cb = .user ∧ Small e' ∧ C15.Shape p' := by
+  cases hu : e.user with
+  | nil =>
+    refine ⟨if (0 : Nat) = 32 then 1 else 0, { p with V := hashDf 1 p.V p.V, C := hashDf 0 (hashDf 1 p.V p.V) [], rc := 1 }, e,
+      by simp only [Prng.reseed, Ent.request, hcb, hu], ?_, hcb, hs, ⟨C15.hashDf_length _ _ _, C15.hashDf_length _ _ _⟩⟩
+    simp only [toGS, GS.reseed, hu, List.map_nil, List.headD_nil, List.tail_nil]
+    have : seedOf ([], 0) p.V = p.V := by unfold seedOf; simp
+    rw [this]; rfl
+  | cons d r =>
+    have hd : d.written.length ≤ 32 := hs d (by rw [hu]; exact List.mem_cons_self)
+    refine ⟨if d.ret = 32 then 1 else 0, { p with V := hashDf 1 p.V (writeAt p.V 0 d.written), C := hashDf 0 (hashDf 1 p.V (writeAt p.V 0 d.written)) [], rc := 1 },
+      { e with user := r }, by simp only [Prng.reseed, Ent.request, hcb, hu], ?_, hcb, fun x hx => hs x (by rw [hu]; exact List.mem_cons_of_mem _ hx),
+      ⟨C15.hashDf_length _ _ _, C15.hashDf_length _ _ _⟩⟩
+    simp only [toGS, GS.reseed, hu, List.map_cons, List.headD_cons, List.tail_cons]
+    rw [seedOf_writeAt d.written d.ret p.V hd hV]; rfl
+
+theorem block_link (p : Prng) (e : Ent) (hs : C15.Shape p) :
+    p.block.1 = (toGS p e).block.1 ∧ toGS p.block.2 e = (toGS p e).block.2 ∧ C15.Shape p.block.2 := by
+  refine ⟨rfl, ?_, ?_, hs.2⟩
+  · simp only [toGS, Prng.block, GS.block, toUInt32_toNat]
+    congr 1
+  · show (vAdvance p.V (hashPrefixed 0x03 p.V) p.C p.rc).length = 32
+    rw [vAdvance_cstate _ _ _ _ hs.1 (by unfold hashPrefixed; exact hash_length _) hs.2, List.length_reverse, cstate_length]
+
+theorem auto_link (p : Prng) (e : Ent) (hcb : p.cb = .user) (hs : Small e) (hsh : C15.Shape p) :
+    ∃ p1 e1 rq, p.autoReseed e = some (p1, e1, rq) ∧ toGS p1 e1 = (toGS p e).auto ∧ p1.cb = .user ∧ Small e1 ∧ C15.Shape p1 := by
+  unfold Prng.autoReseed GS.auto
+  by_cases hc : p.rc > p.rl
+  · obtain ⟨ret, p', e', h1, h2, h3, h4, h5⟩ := reseed_link p e hcb hs hsh.1
+    have hc' : (toGS p e).rc > (toGS p e).rl := by show p.rc.toNat > p.rl.toNat; exact UInt32.lt_iff_toNat_lt.mp hc
+    simp only [hc, if_true, h1, hc']
+    exact ⟨p', e', [.request], rfl, h2, h3, h4, h5⟩
+  · have hc' : ¬ (toGS p e).rc > (toGS p e).rl := by show ¬ p.rc.toNat > p.rl.toNat; exact fun h => hc (UInt32.lt_iff_toNat_lt.mpr h)
+    simp only [hc, if_false, hc']
+    exact ⟨p, e, [], rfl, rfl, hcb, hs, hsh⟩
+
+/-- the hand model's `Prng.genLoop` with a user callback is the source-level block loop -/
+theorem genLoop_link : ∀ (n size : Nat) (p : Prng) (e : Ent), size ≤ n → p.cb = .user → Small e → C15.Shape p →
+    ∃ r, p.genLoop e size = some r ∧ r.out = ((toGS p e).loop size).1 ∧ toGS r.p r.e = ((toGS p e).loop size).2 ∧ r.p.cb = .user ∧ Small r.e ∧ C15.Shape r.p
+  | n, 0, p, e, _, hcb, hs, hsh => by
+    rw [Prng.genLoop, gsLoop_zero]
+    simp only [if_true]
+    exact ⟨_, rfl, rfl, rfl, hcb, hs, hsh⟩
+  | 0, size + 1, p, e, h, _, _, _ => by omega
+  | n + 1, size + 1, p, e, h, hcb, hs, hsh => by
+    obtain ⟨p1, e1, rq, ha, hga, hcb1, hs1, hsh1⟩ := auto_link p e hcb hs hsh
+    obtain ⟨hb1, hb2, hsh2⟩ := block_link p1 e1 hsh1
+    have hcb2 : p1.block.2.cb = .user := hcb1
+    obtain ⟨r, hr1, hr2, hr3, hr4, hr5, hr6⟩ := genLoop_link n (size + 1 - min 32 (size + 1)) p1.block.2 e1 (by omega) hcb2 hs1 hsh2
+    rw [Prng.genLoop, gsLoop_pos _ _ (by omega)]
+    simp only [show ¬ size + 1 = 0 from by omega, if_false, ha, hr1]
+    rw [← hga, ← hb2, ← hb1]
+    exact ⟨_, rfl, by rw [hr2], hr3, hr4, hr5, hr6⟩
+
+
+/-- the entropy script of the MiniC semantics for a hand-model environment -/
+def script (e : Ent) : List MiniC.Delivery := e.user.map fun d => (d.written, d.ret)
+
+theorem holds_toGS {X : Array LByte} {p : Prng} {e : Ent} (h : Holds X p) : PObjV X (toGS p e).V (toGS p e).C (toGS p e).rc (toGS p e).rl := h
+
+theorem set_limit_source_is_model (st : St) (bp : Nat) (X : Array LByte) (baseP limit : Nat) (p : Prng) (hlim : limit < 18446744073709551616)
+    (hP : st.mem[bp]? = some ⟨X, baseP⟩) (ho : Holds X p) (hal : baseP % 4 = 0) (hltP : baseP + X.size < ptrBase) (hbp30 : bp < 2 ^ 30) :
+    ∃ fuel st', callFun prog fuel idx_tinyjambu_prng_set_reseed_limit false [(mkPtr bp baseP, .pub), (limit, .pub)] st =
+        .ok .normal #[(0, .pub), (mkPtr bp baseP, .pub), (limit, .pub)] st' ∧
+      st'.ent = st.ent ∧ st'.mem = setBlock st.mem bp (writeLE X 68 (p.setLimit limit).rl.toNat .pub 4) ∧ Holds (writeLE X 68 (p.setLimit limit).rl.toNat .pub 4) (p.setLimit limit) := by
+  obtain ⟨k, sig, e, s, hx, hs, he, hent, hm, ho'⟩ := prng_set_limit_call #[(0, .pub), (mkPtr bp baseP, .pub), (limit, .pub)] st (.var 1) (.var 2) bp X baseP limit p.V p.C p.rc.toNat p.rl.toNat
+    (by simp [evalE]) (by simp [evalE]) hlim hP ho hal hltP hbp30
+  subst hs he
+  have hrl : (p.setLimit limit).rl.toNat = Hoare.limitBlocks limit := by
+    have hb := Hoare.limitBlocks_bounds limit
+    show (Hoare.limitBlocks limit).toUInt32.toNat = _
+    simp [Nat.toUInt32]; omega
+  refine ⟨k, s, ?_, hent, by rw [hrl]; exact hm, ?_⟩
+  · unfold callFun
+    simp only [List.length_cons, List.length_nil, List.range, List.range.loop, List.map, Bool.false_eq_true, if_false, Nat.zero_add]
+    exact hx
+  · rw [hrl]
+    show PObjV _ p.V p.C p.rc.toNat (p.setLimit limit).rl.toNat
+    rw [hrl]; exact ho'
+
+theorem free_source_is_model (st : St) (bp : Nat) (blk : Block) (hP : st.mem[bp]? = some blk) (hbase : blk.base = 0) (hsz : blk.bytes.size = 96) :
+    ∃ fuel st', callFun prog fuel idx_tinyjambu_prng_free false [(mkPtr bp 0, .pub)] st = .ok .normal #[(0, .pub), (mkPtr bp 0, .pub)] st' ∧
+      st'.ent = st.ent ∧ st'.mem = setBlock st.mem bp (Array.replicate 96 (0, .pub)) := by
+  obtain ⟨k, sig, e, s, hx, hs, he, hent, hm⟩ := prng_free_call #[(0, .pub), (mkPtr bp 0, .pub)] st (.var 1) bp blk (by simp [evalE]) hP hbase hsz
+  subst hs he
+  refine ⟨k, s, ?_, hent, hm⟩
+  unfold callFun
+  simp only [List.length_cons, List.length_nil, List.range, List.range.loop, List.map, Bool.false_eq_true, if_false, Nat.zero_add]
+  exact hx
+
+theorem reseed_source_is_model (st : St) (bp : Nat) (X : Array LByte) (baseP ud : Nat) (p : Prng) (e : Ent) (hcb : p.cb = .user) (hs : Small e) (hV : p.V.length = 32)
+    (hP : st.mem[bp]? = some ⟨X, baseP⟩) (ho : Holds X p) (hpcb : PCb X ud) (hent : st.ent = script e) (hal : baseP % 8 = 0) (hltP : baseP + X.size < ptrBase)
+    (hsz : st.mem.size + 5 < 2 ^ 30) :
+    ∃ fuel st' ret p' e' X', p.reseed e = some (ret, p', e') ∧
+      callFun prog fuel idx_tinyjambu_prng_reseed true [(mkPtr bp baseP, .pub)] st = .ok .normal #[(ret.toNat, .pub), (mkPtr bp baseP, .pub)] st' ∧
+      st'.ent = script e' ∧ st'.mem.size = st.mem.size ∧ st'.mem[bp]? = some ⟨X', baseP⟩ ∧ X'.size = X.size ∧ Holds X' p' ∧ PCb X' ud ∧
+      (∀ j, j ≠ bp → ORel (KeepW (fun _ => False) (fun _ => False)) st'.mem[j]? st.mem[j]?) := by
+  obtain ⟨k, sig, en, s, hx, hsig, hen, hent', hmsz, ⟨X', g1, g2, g3, g4⟩, g5⟩ := prng_reseed_call_ret 0 #[(0, .pub), (mkPtr bp baseP, .pub)] st (.var 1) bp X baseP p.V p.C p.rc.toNat p.rl.toNat ud .pub
+    (by simp [evalE]) hP ho hpcb.toV hal hltP hsz
+  subst hsig
+  cases hu : e.user with
+  | nil =>
+    have hd : st.ent.headD ([], 0) = ([], 0) := by rw [hent, script, hu]; rfl
+    refine ⟨k, s, if (0 : Nat) = 32 then 1 else 0, { p with V := hashDf 1 p.V p.V, C := hashDf 0 (hashDf 1 p.V p.V) [], rc := 1 }, e, X',
+      by simp only [Prng.reseed, Ent.request, hcb, hu], ?_, by rw [hent', hent, script, hu]; rfl, hmsz, g1, g2, ?_, pcb_vle hpcb (fun q hq => g4 q (by omega)), g5⟩
+    · unfold callFun
+      simp only [List.length_cons, List.length_nil, List.range, List.range.loop, List.map, if_true, Nat.zero_add]
+      rw [hx, hen, hd]; rfl
+    · rw [hd] at g3
+      have : seedOf ([], 0) p.V = p.V := by unfold seedOf; simp
+      rw [this] at g3; exact g3
+  | cons d r =>
+    have hd : st.ent.headD ([], 0) = (d.written, d.ret) := by rw [hent, script, hu]; rfl
+    have hdl : d.written.length ≤ 32 := hs d (by rw [hu]; exact List.mem_cons_self)
+    refine ⟨k, s, if d.ret = 32 then 1 else 0, { p with V := hashDf 1 p.V (writeAt p.V 0 d.written), C := hashDf 0 (hashDf 1 p.V (writeAt p.V 0 d.written)) [], rc := 1 },
+      { e with user := r }, X', by simp only [Prng.reseed, Ent.request, hcb, hu], ?_, by rw [hent', hent, script, hu]; rfl, hmsz, g1, g2, ?_, pcb_vle hpcb (fun q hq => g4 q (by omega)), g5⟩
+    · unfold callFun
+      simp only [List.length_cons, List.length_nil, List.range, List.range.loop, List.map, if_true, Nat.zero_add]
+      rw [hx, hen, hd]
+      by_cases h32 : d.ret = 32
+      · simp [h32]; rfl
+      · simp [h32]; rfl
+    · rw [hd, seedOf_writeAt d.written d.ret p.V hdl hV] at g3; exact g3
+
+theorem generate_source_is_model (st : St) (bp bd : Nat) (Xp XD : Array LByte) (baseP based doff n ud : Nat) (p : Prng) (e : Ent)
+    (hcb : p.cb = .user) (hs : Small e) (hsh : C15.Shape p)
+    (hP : st.mem[bp]? = some ⟨Xp, baseP⟩) (ho : Holds Xp p) (hpcb : PCb Xp ud) (hent : st.ent = script e)
+    (hD : st.mem[bd]? = some ⟨XD, based⟩) (hpd : bp ≠ bd) (hal : baseP % 8 = 0) (hltP : baseP + Xp.size < ptrBase) (hltD : based + XD.size < ptrBase)
+    (hin : doff + n ≤ XD.size) (hsz : st.mem.size + 7 < 2 ^ 30) :
+    ∃ fuel st' r Xp' XD', p.genLoop e n = some r ∧
+      callFun prog fuel idx_tinyjambu_prng_generate false [(mkPtr bp baseP, .pub), (mkPtr bd (based + doff), .pub), (n, .pub)] st =
+        .ok .normal #[(0, .pub), (mkPtr bp baseP, .pub), (mkPtr bd (based + doff), .pub), (n, .pub)] st' ∧
+      st'.ent = script r.e ∧ st'.mem.size = st.mem.size ∧
+      st'.mem[bp]? = some ⟨Xp', baseP⟩ ∧ Xp'.size = Xp.size ∧ Holds Xp' r.p ∧ PCb Xp' ud ∧
+      st'.mem[bd]? = some ⟨XD', based⟩ ∧ XD'.size = XD.size ∧ BytesV XD' doff r.out ∧ r.out.length = n ∧ (∀ q, (q < doff ∨ doff + n ≤ q) → ORel VLe XD'[q]? XD[q]?) ∧
+      (∀ j, j ≠ bp → j ≠ bd → ORel (KeepW (fun _ => False) (fun _ => False)) st'.mem[j]? st.mem[j]?) := by
+  obtain ⟨r, hr1, hr2, hr3, _, _, _⟩ := genLoop_link n n p e (Nat.le_refl _) hcb hs hsh
+  obtain ⟨k, sig, en, s, hx, hsig, hen, hent', hmsz, ⟨Xp', g1, g2, g3, g4⟩, ⟨XD', d1, d2, d3, d4, d5⟩, g5⟩ := prng_generate_call
+    #[(0, .pub), (mkPtr bp baseP, .pub), (mkPtr bd (based + doff), .pub), (n, .pub)] st (.var 1) (.var 2) (.var 3) bp bd Xp XD baseP based doff n ud (toGS p e)
+    (by simp [evalE]) (by simp [evalE]) (by simp [evalE]) hP ho hpcb hent hD hpd hal hltP hltD hin hsz
+  subst hsig hen
+  rw [← hr3] at hent' g3
+  rw [← hr2] at d3 d4
+  refine ⟨k, s, r, Xp', XD', hr1, ?_, hent', hmsz, g1, g2, g3, g4, d1, d2, d3, d4, d5, g5⟩
+  unfold callFun
+  simp only [List.length_cons, List.length_nil, List.range, List.range.loop, List.map, Bool.false_eq_true, if_false, Nat.zero_add]
+  exact hx
 
 end TJ.Props.C15Gen
